@@ -30,10 +30,11 @@ VER_ATTRS = [S('1.0.0'), S('1.9.0'), S('1.10.0'), S('2.0.0'), S('1.0.0-beta'), S
              S('1.0.0-1'), S('1.0.0-2'), S('1.0.0-10'), S('1.0.0+build5'), S('1.0.0-beta+exp.sha'), S('1.0'), S('v1.0.0'),
              S('1.0.0.'), S('01.0.0'), S('1.0.0-01'), S('1.0.0-'), S('1.0.0+'), S('18446744073709551615.0.0'),
              S('18446744073709551616.0.0'), S('1.0.0-a_b'), S('1..0'), S(' 1.0.0'), S('1.0.0-rc.1'), S('1.0.0-rc.1.1'), S('0.0.0'),
+             S('1.0.0\n'), S('1.0.0\r\n'), S('1.0.0 '), S('\n1.0.0'), S('1.0.0\t'), S('1.0.0-rc.1\r\n'), S('1.0.0\r'),
              S('1.0.0-\u212a'), S('1.0.0+build.\u212a'), S('1.0.0-\u0130'), S('1.0.0-RC.1'), S('1.0.0-\u00e9'), S('\uff11.0.0'), S('1.0.0-rc\u2024 1')]
 STRINGER_ATTRS = [('str', b'abc'), ('str', b'ABC'), ('str', b'1.0.0'), ('str', b''), ('strptr', b'abc'), ('strpanic',), ('strnilptr',), ('strselfpanic',), ('strpanicinvop',), ('strpanicinvopw',),
-                  ('jnum', b'12'), ('jnum', b'2.25'), ('jnum', b'1'), ('jnum', b'abc'), ('strslice', b'abc'), ('strslice', b'10.0.0.1'), ('strreent', b'abc'), ('strreent', b'1.0.0'), ('strsame', b'abc'), ('strsame', b'1.0.0'), ('strver', b'1.0.0'), ('strverptr', b'1.0.0'), ('strver', b'1.2.3-rc.1+b5')]
-MISC_ATTRS = [('nil',), ('b', True), ('b', False), ('m', []), ('m', [(b'a', I(1))]), ('nilmap',)] + [('o', t) for t in list(range(21)) + [22, 23, 24, 25, 26, 27, 29, 30, 31, 32, 33, 34, 35, 36, 37, 38, 39, 40, 41, 42, 43, 44, 45, 46, 47, 48, 49]]
+                  ('jnum', b'12'), ('jnum', b'2.25'), ('jnum', b'1'), ('jnum', b'abc'), ('strslice', b'abc'), ('strslice', b'10.0.0.1'), ('strreent', b'abc'), ('strreent', b'1.0.0'), ('strsame', b'abc'), ('strsame', b'1.0.0'), ('strtm', b'abc'), ('strtm', b'2024-01-02 03:04:05 +0000 UTC'), ('strver', b'1.0.0'), ('strverptr', b'1.0.0'), ('strver', b'1.2.3-rc.1+b5')]
+MISC_ATTRS = [('nil',), ('b', True), ('b', False), ('m', []), ('m', [(b'a', I(1))]), ('nilmap',)] + [('o', t) for t in list(range(21)) + [22, 23, 24, 25, 26, 27, 29, 30, 31, 32, 33, 34, 35, 36, 37, 38, 39, 40, 41, 42, 43, 44, 45, 46, 47, 48, 49, 50, 51, 52]]
 OTHER_TYPED = [a for a in MISC_ATTRS if a[0] == 'o']   # every non-string, non-number Go type the driver can build
 ABSENT = ('absent',)   # pseudo value: key not in the object
 
